@@ -358,7 +358,8 @@ pub fn replay(args: &Args, s: &mut Summary) {
                         }
                         if *ok {
                             n_acc += 1;
-                            if *n != n_acc || lastobj.as_ref() != want_objs.get(n_acc - 1) {
+                            // C14 compares the newest object with the model; C06 only needs verdicts and the relations below
+                            if prop != "C06" && (*n != n_acc || lastobj.as_ref() != want_objs.get(n_acc - 1)) {
                                 s.mismatch(&format!("object:{}", want_objs.get(n_acc - 1).map(|o| gets(o, "k")).unwrap_or("?")),
                                            json!({"texts": texts, "line": i + 1, "got": lastobj, "want": want_objs.get(n_acc - 1)}));
                                 bad = true;
@@ -370,11 +371,26 @@ pub fn replay(args: &Args, s: &mut Summary) {
                             break;
                         }
                         // (the scratch list itself is not part of the result: a leak is
-                        // visible as a wrong object on a LATER line, which is compared above)
+                        // visible as a wrong object on a LATER line)
                         let _ = residue_len;
                     }
-                    if !bad && Value::Array(all) != c["objs"] {
+                    if !bad && prop != "C06" && Value::Array(all.clone()) != c["objs"] {
                         s.mismatch("objects-final", json!({"texts": texts, "want": c["objs"]}));
+                    }
+                    if !bad && prop == "C06" {
+                        // the same lines without the rejected ones, on a fresh state, must give the same objects
+                        let only: Vec<Value> = {
+                            let mut st = HitObjectsState::create(14);
+                            for (i, t) in texts.iter().enumerate() {
+                                if acc[i] {
+                                    let _ = HitObjects::parse_hit_objects(&mut st, t);
+                                }
+                            }
+                            st.hit_objects.iter().map(proj_obj).collect()
+                        };
+                        if only != all {
+                            s.mismatch("rejected-line-changes-later-objects", json!({"texts": texts, "with_rejected": all, "without": only}));
+                        }
                     }
                 }
             }
